@@ -282,6 +282,62 @@ theorem run_fix_atomic (c : Config) (z0 : Zone) (msgs : List Msg) (e : XErr)
     · rename_i e' z h1; rw [runLoop_fix_err h1]; exact hz
     · rename_i s' h1; simp [hs, h1] at h
 
+/-! ## `Inbound` driven directly: leaving the block before the transfer is done -/
+
+/-- feeding stops at the first message that completes the transfer: an error comes with the zone the
+feeding started from, and so does a state that is not done -/
+theorem feedLoop_fix_zone : ∀ {msgs : List Msg} {s : Inbound},
+    (∀ e z, feedLoop true s msgs = .error (e, z) → z = s.zone) ∧
+    (∀ s', feedLoop true s msgs = .ok s' → s'.done = false → s'.zone = s.zone) := by
+  intro msgs
+  induction msgs with
+  | nil =>
+    intro s
+    constructor
+    · intro e z h; cases h
+    · intro s' h _; cases h; rfl
+  | cons m ms ih =>
+    intro s
+    constructor
+    · intro e z h
+      unfold feedLoop at h
+      repeat' split at h
+      · rename_i e' h1; cases h; exact procMessage_fix_err h1
+      · cases h
+      · rename_i s1 h1 hd
+        rw [(ih (s := s1)).1 _ _ h]; exact (procMessage_ok h1 (by simpa using hd)).1
+    · intro s' h hn
+      unfold feedLoop at h
+      repeat' split at h
+      · cases h
+      · rename_i s1 h1 hd; cases h; rw [hd] at hn; cases hn
+      · rename_i s1 h1 hd
+        rw [(ih (s := s1)).2 _ h hn]; exact (procMessage_ok h1 (by simpa using hd)).1
+
+/-- `__exit__` never changes the committed zone -/
+theorem exit_zone (s : Inbound) (b : Bool) : s.exit b = s.zone := by
+  unfold Inbound.exit; split <;> rfl
+
+/-- **Leaving early leaves the zone**: `Inbound` driven as a context manager by any caller, fed any messages,
+left normally or by an exception (of `process_message` or of the caller) — unless a `process_message` call
+returned `True`, the zone afterwards is exactly the zone before. -/
+theorem drive_fix_early (c : Config) (z0 : Zone) (msgs : List Msg) (callerRaises : Bool)
+    (h : (drive true c z0 msgs callerRaises).done = false) : (drive true c z0 msgs callerRaises).zone = z0 := by
+  unfold drive at h ⊢
+  split
+  · rfl
+  · rename_i s hs
+    have hz : s.zone = z0 := by
+      unfold Inbound.init at hs
+      repeat' split at hs
+      all_goals first | (cases hs; done) | (cases hs; rfl)
+    split
+    · rename_i e z h1; simp only; rw [(feedLoop_fix_zone (s := s)).1 _ _ h1]; exact hz
+    · rename_i s' h1
+      simp only [hs, h1] at h
+      simp only [exit_zone]
+      rw [(feedLoop_fix_zone (s := s)).2 _ h1 h]; exact hz
+
 /-! ## the two variants differ only in the D11 situation -/
 
 /-- `a` (as shipped) and `b` (repaired) are the same result, or both raise `FormError` (and may differ
